@@ -566,8 +566,16 @@ def main():
 
     def run_stream(name, hists, judged):
         lines, line_hist = [], []
+        prev_cfg, since = None, 0
         for hi, h in enumerate(hists):
-            lines += h
+            # consecutive histories on the same configuration share one cluster (`reset` clears every cache directly;
+            # generation counters keep running): a fresh cluster per history would cost ~4 TCP connections each
+            if h and h[0] == prev_cfg and since < 500:
+                lines += ["reset"] + h[1:]
+                since += 1
+            else:
+                lines += h
+                prev_cfg, since = (h[0] if h else None), 0
             line_hist += [hi] * len(h)
         r = R.run(lines, judge=judged)
         c.log("stream %s: %d histories, %d lines, %d diffs, %d judge failures%s" %
